@@ -1,7 +1,7 @@
 """C04 - round trip preserves tetrahedral and double-bond stereochemistry."""
 import time
 
-from .. import rt, judge
+from .. import rt, judge, skel
 from ..ctx import Ctx
 from ..oread import read_smiles
 from ..symstr import make_slots
@@ -81,6 +81,11 @@ def run(rep, tier, seed, budget):
     gen = generated_centres(2 if quick else 3)
     plan.append(("generated centres: every ordered arrangement of up to %d items (branches, closing digits, opening digits) after a chiral atom, %d spellings" % (2 if quick else 3, len(gen)),
                  lambda: make_slots("s", [gen]), {"generator": "N1CC2CC + [C@]/[C@@H] + permutation of <= %d of {(F),(Cl),1,2,3,4} + closing tail" % (2 if quick else 3), "spellings": len(gen)}))
+    # M-SKEL: one chiral centre at every possible place (first atom, inside a branch, opening / closing rings) of every skeleton
+    SPECIAL = {4: ["[C@]", "[C@@]"], 3: ["[C@H]", "[C@@H]"]}
+    for n in ((5,) if quick else (5, 6)):
+        plan.append(("every skeleton of %d atoms in every writing order with one chiral centre ([C@] / [C@@] at degree 4, [C@H] / [C@@H] at degree 3) at every possible atom" % n,
+                     lambda n=n: skel.skeleton(n, ("C",), ("",), ("",), special=SPECIAL), dict(skel.bounds(n), chiral_centre=SPECIAL)))
     for n in ((2, 3, 4) if quick else (2, 3, 4, 5)):
         plan.append(("uniform N=%d tokens with stereo marks" % n, lambda n=n: make_slots("s", [TOK4] * n), {"tokens": TOK4, "N_tokens": n}))
     for name, mk, bounds in plan:
